@@ -791,7 +791,9 @@ def shape(node, env=None):
             if lid not in env:
                 env[lid] = len(env)
             return ("local", env[lid])
-        return ("path", norm(r.get("ctor_of") or r.get("def")), r.get("cval"))
+        if r.get("cval") is not None:
+            return ("const", r.get("cval"))      # a named constant and the literal it stands for have one shape
+        return ("path", norm(r.get("ctor_of") or r.get("def")), None)
     if k == "Binding":
         lid = node["lid"]
         if lid not in env:
@@ -799,6 +801,8 @@ def shape(node, env=None):
         return ("bind", env[lid], shape(node.get("sub"), env) if node.get("sub") else None)
     if k == "Lit":
         v = node["v"]
+        if isinstance(v, dict) and v.get("lit") in ("int", "uint", "float", "bool", None) and v.get("v") is not None:
+            return ("const", v.get("v"))
         return ("lit", v.get("lit"), v.get("v")) if isinstance(v, dict) else ("lit", None)
     if k in ("MethodCall", "Binary", "Unary", "Index", "AssignOp"):
         items.append(callee(node) if k == "MethodCall" else node.get("op"))
